@@ -167,6 +167,22 @@ var templates = []Template{
 	// out-reserve or all but a fraction of a unit of it
 	10: {Name: "bal bar/baz thin 2:1 fee0", Kind: "bal", Coins: [][2]string{{"bar", "100"}, {"baz", "3000000"}}, Weights: []int64{2, 1}, Fee: "0"},
 	11: {Name: "bal foo/bar thin 1:1 fee0.003", Kind: "bal", Coins: [][2]string{{"foo", "5000"}, {"bar", "6060"}}, Weights: []int64{1, 1}, Fee: "0.003"},
+	// 18-decimal-scale reserves of very different size: share ratios are not representable in 18 decimals, so the
+	// keeper's and the pool model's computations of the tokens an all-asset join takes must round alike
+	12: {Name: "bal bar/baz big 1:1 fee0.003", Kind: "bal", Coins: [][2]string{{"bar", "1000000000000000000000000"}, {"baz", "2000000000000000000"}}, Weights: []int64{1, 1}, Fee: "0.003"},
+	13: {Name: "stable bar/baz big sf1,1 fee0.001", Kind: "stable", Coins: [][2]string{{"bar", "3000000000000000000000000"}, {"baz", "3000000000000000000000000"}}, Scaling: []uint64{1, 1}, Fee: "0.001"},
+}
+
+// oddShares is a share amount (12.3 of the initial 100) whose ratio to any share supply is not representable in 18 decimals.
+const oddShares = "12345678901234567891"
+
+func (p PoolRec) big() bool {
+	for _, c := range p.Init {
+		if c.Amount.GTE(sdkmath.NewIntWithDecimal(1, 18)) {
+			return true
+		}
+	}
+	return false
 }
 
 // whale is a swap amount nine and more orders of magnitude above a thin pool's reserves.
@@ -297,7 +313,8 @@ func other(a string) string {
 }
 
 func NewWorld(cfg Config, r *core.Result) *World {
-	fund := core.Coins("foo", "10000000000000000", "bar", "10000000000000000", "baz", "10000000000000000", "uosmo", "200000000000",
+	// bar and baz are funded at 18-decimal scale too (the template "big" holds 10^24 / 2*10^18 base units)
+	fund := core.Coins("foo", "10000000000000000", "bar", "10000000000000000000000000000", "baz", "10000000000000000000000000", "uosmo", "200000000000",
 		"qaa", "10000000000", "qbb", "10000000000", "qcc", "10000000000", "qdd", "10000000000")
 	env := core.NewEnv(core.GenesisOpts{Balances: map[string]sdk.Coins{"A": fund, "B": fund}, Mutate: func(a *app.OsmosisApp, gs app.GenesisState) {
 		// The shared environment bonds "stake" (the SDK default), and the txfees default genesis takes its base denom from
@@ -1242,6 +1259,9 @@ func (w *World) Enabled(al *Alphabet) func(ctx sdk.Context, l *Ledger, depth int
 				)
 				if al.Wide {
 					ops = append(ops, Op{K: "join", A: p.Creator, P: p.ID, X: "1", Y: "0"}, Op{K: "jswapin", A: j, P: p.ID, D: d1, X: "1000"})
+				}
+				if p.big() {
+					ops = append(ops, Op{K: "join", A: j, P: p.ID, X: oddShares, Y: "0"}, Op{K: "exit", A: j, P: p.ID, X: oddShares})
 				}
 			}
 			ops = append(ops,
